@@ -27,7 +27,7 @@ Not judged: latency of the report beyond "before the next packet's DPP start"; `
   whether a DPP behind a header of another type is reported 'bad' or not at all.
 Known findings on the unchanged tree are classified narrowly (see known_findings.d/C40.json); after the ZLP finding
   (receiver stuck) the rest of that sub-session is unjudged.
-Deviation from DESIGN section 7: cases are long sessions (elaboration cost), so the quick tier has 32 cases x 128 packets.
+Deviation from DESIGN section 7: cases are long sessions (elaboration cost), so the quick tier has 16 cases x 192 packets (one round on 16 workers: 16 elaborations side by side are what costs wall time).
 """
 import struct
 
@@ -35,10 +35,10 @@ from rv.sim import Bench
 from rv.ref import c35_usb3link as L
 
 PROPERTY = "C40"
-CASES = {"quick": 32, "thorough": 320}
+CASES = {"quick": 16, "thorough": 160}
 # elaboration of the CRC-32 users dominates the cost; generous watchdog for a loaded machine
 TIMEOUT = {"quick": 3600, "thorough": 8 * 3600}
-RULE = ("case = 16 sub-sessions (DUT reset between) x 8 packets: data packets of all lengths mod 4 incl. zero length, ~45% damaged "
+RULE = ("case = 24 sub-sessions (DUT reset between) x 8 packets: data packets of all lengths mod 4 incl. zero length, ~45% damaged "
         "(CRC-32/payload/header CRC bit flips, aborts, short/long, K-symbol, missing CRC), other traffic between, not-valid words at "
         "random density and directed before each word role; non-trivial = >=1 damaged packet, >=1 not-valid word inside a payload "
         "and before a CRC word; distinct = hash of the complete word script")
@@ -58,7 +58,7 @@ ASSUMPTIONS = ["a data packet = data header followed (possibly after not-valid w
                "the four symbols after the payload must be data symbols equal to the CRC-32; K-symbols there make the packet bad"]
 
 KINDS = [("good", 40), ("crc32_flip", 9), ("payload_flip", 7), ("crc_swap", 3), ("hdr_crc16", 6), ("hdr_crc5", 5), ("abort", 7),
-         ("short", 4), ("long", 4), ("ctrl_in_payload", 5), ("crafted_no_crc", 2), ("nondata", 5), ("dph_no_dpp", 4), ("other_type_with_dpp", 4)]
+         ("short", 4), ("long", 4), ("ctrl_in_payload", 5), ("crafted_no_crc", 2), ("nondata", 5), ("dph_no_dpp", 4), ("other_type_with_dpp", 6)]
 GAP_ROLES = ["dw0", "dw1", "dw2", "dw3", "sdp", "pay_first", "pay_mid", "crc", "end"]
 KSYMS = [L.SKP, L.SUB, L.COM, L.END, L.EDB, L.SHP, L.SDP, L.EPF]
 
@@ -559,7 +559,7 @@ def run_case(rng, tier, res):
     rst = Signal(name="harness_rst")
     top = ResetInserter({"ss": rst})(dut)
     sess = Session(rng, res, tier)
-    sess.build(16, 8)
+    sess.build(24, 8)
     script = sess.script
     b = Bench(top, domain="ss", freq=125e6, max_cycles=len(script) + 50)
     sigs = [dut.sink.valid, dut.sink.data, dut.sink.ctrl, dut.packet_good, dut.packet_bad, dut.source.valid, dut.source.data, rst]
